@@ -143,3 +143,101 @@ def all_deterministic(k, labels, vertices=None):
     for choice in itertools.product([None] + vs, repeat=len(slots)):
         E = [(u, t, l) for (u, l), t in zip(slots, choice) if t is not None]
         yield M(vs, E)
+
+
+# ---- additions for C10 / C06 (language-level oracles) ------------------------------------
+def all_words(labels, maxlen, minlen=0):
+    """Every sequence (tuple) over `labels` of length minlen..maxlen, shortest first."""
+    for n in range(minlen, maxlen + 1):
+        for w in itertools.product(labels, repeat=n):
+            yield w
+
+
+def language(m, maxlen, start, exact=False):
+    """List of (label-tuple, end vertex) for every path from `start` with <= maxlen edges
+    (exactly maxlen edges when exact).  In a deterministic automaton the label tuples are
+    pairwise distinct."""
+    out = []
+    for n in range(maxlen + 1):
+        if exact and n != maxlen:
+            continue
+        out.extend(m.paths(n, start))
+    return out
+
+
+def longest_accepted_prefix(m, word, start):
+    v = start
+    n = 0
+    for l in word:
+        v = m.target(v, l)
+        if v is None:
+            break
+        n += 1
+    return tuple(word[:n])
+
+
+def shortest_path_edges(m, root):
+    """Edges (u, v, l) with u reachable from root and dist(v) == dist(u) + 1."""
+    dist = m.dist_from(root)
+    return {(u, v, l) for (u, v, l) in m.E if u in dist and dist.get(v) == dist[u] + 1}, dist
+
+
+def multiple_model(m, k, starts):
+    """The k-step automaton: vertices = closure of `starts` under k-edge paths, edges
+    (v, end, label-tuple of the k-edge path).  Labels are tuples of the original labels."""
+    V = set()
+    E = set()
+    todo = list(starts)
+    while todo:
+        v = todo.pop()
+        if v in V:
+            continue
+        V.add(v)
+        for (w, end) in m.paths(k, v):
+            E.add((v, end, w))
+            if end not in V:
+                todo.append(end)
+    return M(V, E)
+
+
+def read_kbmag_table(text):
+    """Regex reading of a kbmag word-acceptor file (independent of gap_parse): returns
+    (names, table, initial); table[i][j] = target (1-based, 0 = fail) of state i+1 on names[j]."""
+    import re
+    names = re.search(r"names\s*:=\s*\[([^\]]*)\]", text).group(1)
+    names = [n.strip().strip('"') for n in names.split(",") if n.strip()]
+    tr = re.search(r"transitions\s*:=\s*\[(.*?)\]\s*\]", text, re.S).group(1) + "]"
+    rows = re.findall(r"\[([^\[\]]*)\]", tr)
+    table = [[int(x) for x in r.replace(" ", "").split(",") if x.strip() != ""] for r in rows]
+    initial = re.search(r"initial\s*:=\s*\[([^\]]*)\]", text).group(1)
+    initial = [int(x) for x in initial.split(",") if x.strip()]
+    return names, table, initial
+
+
+def model_of_table(names, table):
+    E = [(i + 1, t, names[j]) for i, row in enumerate(table) for j, t in enumerate(row) if t != 0]
+    return M(range(1, len(table) + 1), E)
+
+
+def adjacency(m):
+    """u -> {label: target} (fast walks on larger automata)."""
+    d = {v: {} for v in m.V}
+    for (u, v, l) in m.E:
+        d[u][l] = v
+    return d
+
+
+def walk_adj(adj, word, start):
+    v = start
+    for l in word:
+        v = adj.get(v, {}).get(l)
+        if v is None:
+            return None
+    return v
+
+
+def paths_adj(adj, length, start):
+    out = [((), start)]
+    for _ in range(length):
+        out = [(w + (l,), v2) for (w, v) in out for (l, v2) in sorted(adj.get(v, {}).items(), key=repr)]
+    return out
